@@ -224,6 +224,10 @@ def fieldCodecOf (num : Nat) : Ty → Bool × Bool × Codec
     let (ve, vr, vfc) := fieldCodecOf 2 v
     let entry := Codec.struct (.cons 1 ke kr false kfc (.cons 2 ve vr false vfc .nil))
     (true, true, .map num kc vc (isStructBase k) (isStructBase v) entry)
+  -- `f.Type.Kind()` looks through defined types: a field of type `type Ints []int32` / `type M map[K]V` is a repeated / map
+  -- field like one of the underlying type (a type with Message methods is taken by `encodedByMethods` before the kind switch)
+  | .named "RawMessage" t => (false, false, codecOf (.named "RawMessage" t))
+  | .named _ t => fieldCodecOf num t
   | t => (isStructBase t, false, codecOf t)
 -- go: proto.structCodecOf  (the loop over t.Field(i); `number` is the running declaration-order number)
 def fieldsOf (number : Nat) : Fields → CFields
